@@ -54,7 +54,15 @@ func (h *harness) violation(sig, what string, witness map[string]interface{}) {
 // poisoned transport costs goroutines.  A count, not a time budget.
 const breakerLimit = 1500
 
-var waitPairs = [][2]time.Duration{{1, 1}, {1, 2}, {1, 4}, {2, 2}, {2, 4}, {4, 4}}
+// (InitialWait, MaxWait) in ms, InitialWait <= MaxWait always.  Half of the
+// pairs have a MaxWait that is not InitialWait*2^k, so that the doubling
+// crosses the maximum instead of landing on it.
+var waitPairs = [][2]time.Duration{{1, 1}, {1, 2}, {1, 4}, {2, 2}, {2, 4}, {4, 4}, {3, 5}, {2, 5}, {1, 3}, {3, 7}, {2, 3}, {3, 4}}
+
+// streakPairs are used by the failure-streak workload, where the underlying
+// Open fails up to 8 times in a row (1/30: the doubling needs 6 failures to
+// cross the maximum).
+var streakPairs = [][2]time.Duration{{3, 5}, {2, 5}, {1, 3}, {3, 7}, {1, 30}, {1, 6}, {5, 9}, {1, 4}, {2, 2}, {1, 12}}
 
 func mkPolicy(monitor bool, max, fails int, rng *rand.Rand) policy {
 	p := policy{Monitor: monitor, Max: max, OpenFails: fails}
@@ -124,6 +132,70 @@ func genHistories(maxLen int, rng *rand.Rand) []*caseSpec {
 	return out
 }
 
+// genStreaks: long runs of failed reopen attempts (MaxReopenAttempts up to 8,
+// the underlying Open failing up to 8 times in a row) under wait pairs whose
+// doubling crosses MaxWait; one or two failures per history.
+func genStreaks(rng *rand.Rand) []*caseSpec {
+	var out []*caseSpec
+	shapes := [][2]int{{8, 8}, {8, 7}, {8, 6}, {7, 5}, {6, 6}, {5, 4}, {8, 3}, {4, 8}, {8, 1}, {6, 2}}
+	hist := []string{"OX", "OG", "OXRX", "OXRGRX"}
+	for _, w := range streakPairs {
+		for si, sh := range shapes {
+			p := policy{Monitor: true, Max: sh[0], OpenFails: sh[1], Initial: w[0] * time.Millisecond, MaxWait: w[1] * time.Millisecond}
+			h := hist[(si+int(w[1]))%len(hist)]
+			if w[1] >= 12 && len(h) > 2 {
+				h = "OX" // long waits: one streak is enough
+			}
+			var ops []op
+			for i, c := range h {
+				ops = append(ops, op{K: string(c), A: i + si})
+			}
+			ops = append(ops, op{K: "W"}, op{K: "R"}, op{K: "I"})
+			out = append(out, &caseSpec{Kind: "streak", Ops: ops, Pol: p})
+		}
+	}
+	return out
+}
+
+// policyChains drives the monitor policy object alone, as values: for a grid
+// of (InitialWait <= MaxWait, MaxReopenAttempts) it follows the chain
+// OnClosedUncleanly, OnReopenFailed(1, w1), OnReopenFailed(2, w2), ... the way
+// the runner does and checks every wait and the number of attempts.
+func (h *harness) policyChains() {
+	chains, waits := 0, 0
+	for ini := 1; ini <= 9; ini++ {
+		for max := ini; max <= 40; max++ {
+			for _, attempts := range []uint{0, 1, 2, 3, 8, 12} {
+				p := policy{Monitor: true, Max: int(attempts), Initial: time.Duration(ini) * time.Millisecond, MaxWait: time.Duration(max) * time.Millisecond}
+				m := newRecMonitor(p)
+				chains++
+				h.run.Eval(1)
+				re, w := m.OnClosedUncleanly(errPolicyProbe)
+				made := uint(0)
+				for re {
+					waits++
+					if w > p.MaxWait {
+						h.violation("C15:wait-above-MaxWait", fmt.Sprintf("the monitor policy decided to wait %v before attempt %d, above MaxWait %v (InitialWait %v)", w, made+1, p.MaxWait, p.Initial),
+							map[string]interface{}{"case": caseSpec{Kind: "policy-chain", Pol: p}, "monitor_events": m.all()})
+						break
+					}
+					made++ // the attempt fails
+					if made > attempts {
+						h.violation("C15:more-than-MaxReopenAttempts", fmt.Sprintf("the monitor policy allows attempt %d, MaxReopenAttempts is %d", made, attempts),
+							map[string]interface{}{"case": caseSpec{Kind: "policy-chain", Pol: p}, "monitor_events": m.all()})
+						break
+					}
+					re, w = m.OnReopenFailed(made, w)
+				}
+			}
+		}
+	}
+	h.run.Distinct("policy-chains")
+	h.run.Set("policy_chains", map[string]int{"chains": chains, "wait_values_checked": waits})
+}
+
+var errPolicyProbe = fmt.Errorf("policy probe")
+
 func genRandom(n, maxLen int, rng *rand.Rand) []*caseSpec {
 	letters := "OOOOCCEXXXXGGRRRRIIK"
 	var out []*caseSpec
@@ -138,6 +210,9 @@ func genRandom(n, maxLen int, rng *rand.Rand) []*caseSpec {
 			p = mkPolicy(false, 0, rng.Intn(4), rng)
 		} else {
 			p = mkPolicy(true, rng.Intn(4), rng.Intn(4), rng)
+			if rng.Intn(8) == 0 { // long failure streaks now and then
+				p.Max, p.OpenFails = 4+rng.Intn(5), rng.Intn(9)
+			}
 		}
 		out = append(out, &caseSpec{Kind: "rand", Ops: ops, Pol: p, Order: rng.Intn(2)})
 	}
@@ -349,7 +424,7 @@ func runC15(tier string, args []string) int {
 		return replay(h, args[1])
 	}
 
-	run.Rule("cases = (a) 3 requests in flight and the 3-frame answer stream cut at every byte offset, ended by EOF (TTransportException and raw) or a connection reset (TTransportException and plain), then reopen, request, second failure, reopen, request, close; (b) the k-th Read/Write/Flush/Open/Close of the stream failing for every k of a 3-request conversation (answers in one piece and in three), single faults and 2-3 read faults in a row; (c) every history over {Open, Close, peerEOF, peerError, garbage, Request, IsOpen} up to the tier's length, under MaxReopenAttempts 0-3 x underlying Open failing 0-3 times x with/without monitor, reduced to distinct normalised histories, plus random histories up to length 30 including Close() racing a peer error; (d) two forced schedules of Close/Open/failure against the exit of the old read loop. Every case runs on a fresh transport and always ends with a Close that must return. distinct = kind + normalised op string + policy (+ fault plan)")
+	run.Rule("cases = (a) 3 requests in flight and the 3-frame answer stream cut at every byte offset, ended by EOF (TTransportException and raw) or a connection reset (TTransportException and plain), then reopen, request, second failure, reopen, request, close; (b) the k-th Read/Write/Flush/Open/Close of the stream failing for every k of a 3-request conversation (answers in one piece and in three), single faults and 2-3 read faults in a row; (c) every history over {Open, Close, peerEOF, peerError, garbage, Request, IsOpen} up to the tier's length, under MaxReopenAttempts 0-3 x underlying Open failing 0-3 times x with/without monitor x (InitialWait, MaxWait) pairs half of which are not a power-of-two ratio, reduced to distinct normalised histories, plus random histories up to length 30 including Close() racing a peer error; (e) failure streaks: MaxReopenAttempts up to 8 with the underlying Open failing up to 8 times in a row under wait pairs such as 3/5, 2/5, 1/3, 3/7, 1/30 ms, every recorded wait value <= MaxWait, plus the policy object alone driven as values over a grid of InitialWait <= MaxWait; (d) three forced schedules of Close/Open/failure against the exit of the old read loop. Every case runs on a fresh transport and always ends with a Close that must return. distinct = kind + normalised op string + policy (+ fault plan)")
 	run.Assume("rig.ScriptTransport models a blocking byte stream; a write/flush fault breaks the stream in both directions (the read side fails with the same error)")
 	run.Assume("a peer EOF may be published as a clean close (nil cause); the monitor runner ends after a clean close or a no-reopen decision, as documented in transport_monitor.go")
 	run.Assume("goroutine dumps (runtime.Stack) print the receiver pointer of non-inlined methods and the wait reason of parked goroutines")
@@ -365,6 +440,10 @@ func runC15(tier string, args []string) int {
 	if raceChild {
 		maxLen, nRand, schedReps = 3, 300, 3
 	}
+
+	// (e) the monitor policy as values, and long streaks of failed reopens
+	h.policyChains()
+	h.runAll("streaks", genStreaks(run.Rand("streaks")), workers)
 
 	// (d)
 	h.runAll("schedules", genSchedules(run.Rand("sched"), schedReps), workers)
